@@ -10,7 +10,7 @@ from vlib import gens
 from vlib.core import Prop, Sub, Violation, calling, check
 from vlib.systems import Sys, matrix_system
 
-HIGH = dict(solver="CLARABEL", tol_gap_abs=1e-11, tol_gap_rel=1e-11, tol_feas=1e-11, max_iter=500)
+HIGH = dict(solver="CLARABEL", tol_gap_abs=1e-9, tol_gap_rel=1e-9, tol_feas=1e-9, max_iter=500)
 PROCS = ("gaussian", "poisson", "excitation", "minimize")
 # comparison tolerance per procedure (capture units) with the high-accuracy pass-through: the Poisson likelihood is flat near
 # its optimum (prediction error ~ sqrt(objective gap)), the excitation model is a bisection with SCS
